@@ -105,6 +105,9 @@ func (r *runningRoutine[K, V]) execute(
 		select {
 		case <-ctx.Done():
 			err = context.Canceled
+			// the previous instance must return before we signal that we exited:
+			// otherwise a later instance waiting on our exitedCh overlaps with it.
+			<-waitCh
 		case <-waitCh:
 		}
 	} else if err = ctx.Err(); err != nil {
